@@ -273,4 +273,21 @@ def handleMorph (toks : List (List Char)) : String :=
     | _, _, _, _ => "bad-op"
   | _, _, _, _ => "bad-op"
 
+/-- `C08 morphc orig=<hex> cur=<hex> m2o=<list> nodes=<bc:ec:bb:eb;...>`
+answer: `ok cc=<begin_c:end_c per morpheme>` - `Morpheme::begin_c()/end_c()`: the node's CHARACTER range of the rewritten text
+through `mod_c2b`, `m2o` and the original byte -> character table (`to_orig_char_idx`); `x` where the table holds the
+"not a boundary" marker or an index is out of range -/
+def handleMorphC (toks : List (List Char)) : String :=
+  match Wire.kv? toks "orig", Wire.kv? toks "cur", Wire.kv? toks "m2o", Wire.kv? toks "nodes" with
+  | some o, some c, some m, some ns =>
+    match Wire.hexBytes? o, Wire.hexBytes? c, Wire.natList? m, Wire.allSome ((Wire.items ';' ns).map parseNode) with
+    | some orig, some cur, some m2o, some nodes =>
+      let l := pairUp cur m2o
+      let cc := nodes.map (fun n => match toOrigCharIdx orig l n.bc, toOrigCharIdx orig l n.ec with
+        | some b, some e => some (b, e)
+        | _, _ => none)
+      "ok cc=" ++ showRanges cc
+    | _, _, _, _ => "bad-op"
+  | _, _, _, _ => "bad-op"
+
 end EditM
